@@ -180,7 +180,7 @@ CopyOne(fs, own, snap, x, s, t, co) == LET q == Rebase(x, s, t) n0 == snap[x]
    IF n.k = "dir" THEN (IF Exists(fs, q) THEN (IF IsDir(fs, q) THEN [fs |-> fs, e |-> "-"] ELSE [fs |-> fs, e |-> "*"])
                         ELSE [fs |-> Put(fs, q, [NDir(own) EXCEPT !.mode = CopyMode(n, co.dm, DirType)]), e |-> "-"])
    ELSE IF n.k = "file" THEN (IF Exists(fs, q) /\ ~IsFile(fs, q) THEN [fs |-> fs, e |-> "*"]
-                              ELSE [fs |-> Put(fs, q, IF Exists(fs, q) THEN [fs[q] EXCEPT !.d = n.d, !.mode = 0]      \* mode of a pre-existing file: not settled (0 = wildcard)
+                              ELSE [fs |-> Put(fs, q, IF Exists(fs, q) THEN [fs[q] EXCEPT !.d = n.d, !.mode = CopyMode(n, co.fm, FileType)]      \* an overwritten file takes the copy's mode as well ("chmod_files: mode of copied files"; std::fs::copy copies the permission bits)
                                                       ELSE [NFile(n.d, own) EXCEPT !.mode = CopyMode(n, co.fm, FileType)]), e |-> "-"])
    ELSE (IF Exists(fs, q) THEN (IF IsLink(fs, q) THEN [fs |-> fs, e |-> "-"] ELSE [fs |-> fs, e |-> "*"])
          ELSE [fs |-> Put(fs, q, NLink(n.t, IF IsPrefix(t, n.t) \/ TK(snap, n.t) # n.tk THEN "?" ELSE LinkTK(fs, n.t), own)), e |-> "-"])   \* target inside the destination being built, or stale: order dependent
